@@ -34,7 +34,7 @@ Print Assumptions C12_crlf.
 Theorem C12_script_depends_on_tokens_only : forall E path fe1 fe2 t,
   parser_input (tokenize (fe_content fe1)) = parser_input (tokenize (fe_content fe2)) ->
   transpile_entry E path fe1 t = transpile_entry E path fe2 t.
-Proof. intros E path fe1 fe2 t H. unfold transpile_entry. rewrite (parse_entry_tokens E _ _ path fe1 fe2 H). reflexivity. Qed.
+Proof. intros E path fe1 fe2 t H. unfold transpile_entry. rewrite (parse_entry_tokens E _ _ _ path fe1 fe2 H). reflexivity. Qed.
 Print Assumptions C12_script_depends_on_tokens_only.
 
 (* Non-vacuity: two layouts of one program. *)
